@@ -564,9 +564,14 @@ def bubbleNo (i : Nat) : Nat := %s""" % (deg["degree_one"], deg["degree_two"], T
     # ---- realign.wfa_alignment: the pass-through guard
     _, src = src_of("gaftools/cli/realign.py")
     fn = find_func(ast.parse(src), "wfa_alignment")
-    guard = _only([st for st in ast.walk(fn) if isinstance(st, ast.If) and "query_end" in ast.unparse(st.test) and "query_start" in ast.unparse(st.test)], "length guard")
-    out.append("""/-- realign.wfa_alignment: alignments that are passed through unchanged -/
-def tooLong (qs qe : Int) : Bool := decide %s""" % TrMap({"gaf_line.query_end": "qe", "gaf_line.query_start": "qs"}).expr(guard.test))
+    loop = _only([st for st in fn.body if isinstance(st, ast.For)], "batch loop")
+    guard = loop.body[0]
+    if not (isinstance(guard, ast.If) and guard.orelse and "WavefrontAligner" in ast.unparse(guard.orelse[0])
+            and "WavefrontAligner" not in "".join(ast.unparse(x) for x in guard.body)):
+        raise Untranslatable("the batch loop does not start with the pass-through guard")
+    out.append("""/-- realign.wfa_alignment: alignments that are passed through unchanged (the first test of the batch loop), as a function
+    of the read interval and of the lengths of the two sequences handed to the aligner -/
+def tooLong (qs qe refLen queryLen : Int) : Bool := decide %s""" % TrMap({"gaf_line.query_end": "qe", "gaf_line.query_start": "qs", "len(ref)": "refLen", "len(query)": "queryLen"}).expr(guard.test))
 
     # ---- view.search: the region filter
     _, src = src_of("gaftools/cli/view.py")
@@ -650,7 +655,7 @@ def needsReverse (a b : Int) : Bool := decide (a > b)
 def notIncreasing (x y : Int) : Bool := !decide (x < y)
 def scaffoldNo : Nat := 0
 def bubbleNo (i : Nat) : Nat := i + 1
-def tooLong (qs qe : Int) : Bool := decide (qe - qs > 60000)
+def tooLong (qs qe refLen queryLen : Int) : Bool := decide (qe - qs > 60000)
 def regionHit (so en a b : Int) : Bool := decide (so ≤ b ∧ a < en)
 def largeDel (n : Int) : Bool := decide (n ≥ 50)
 def largeIns (n : Int) : Bool := decide (n ≥ 50)
